@@ -53,6 +53,12 @@
 //	string                    → the list of its bytes (len, s[i], append(b, s...), string(b), []byte(s)); range over a
 //	                            string (runes) is refused; a constant string is the list of its bytes.
 //	if with a return / panic anywhere inside an arm → the rest of the block is duplicated into both arms.
+//	*bytes.Buffer parameter   → the list of the bytes written (buf.WriteByte(b) / Write(p) / WriteString(s) as statements =
+//	                            append); returned in front of the results; such a function cannot be called from
+//	                            translated code.
+//	f.M(..) inside an expression (M assigns receiver fields / can panic) → bound to a fresh variable in front of the
+//	                            statement, in Go's order of evaluation (lexical, arguments before the call); refused
+//	                            under && / ||, in loop conditions, and when the statement also reads a field it assigns.
 //	nil slices are the empty list (x == nil on a slice is refused).
 //	"segments": a consecutive run of statements of a function, translated as a function of the variables it reads
 //	to the variables it assigns (or to its return value).
